@@ -67,7 +67,7 @@ TxnCoreOp ==
     \/ SetAt("t", 0, fresh, "Set") \/ Entries("t", 0, <<2>>)
 NextTxnCore ==
     \/ txn.open /\ (TxnCoreOp \/ TxnCommit \/ TxnDrop \/ TxnRollback)
-    \/ ~txn.open /\ (TxnBegin \/ (\E s \in SubIds : Poll(s, 0)))
+    \/ ~txn.open /\ (TxnBegin \/ (\E s \in SubIds : Poll(s, 0) \/ Poll(s, 1)))
 SpecTxnCore == PInit /\ [][NextTxnCore]_vars
 
 (* lag and end of stream: a few message-producing calls, a transaction, the drop, polls with every budget *)
